@@ -1168,9 +1168,24 @@ func (a *nilAn) funcNonNil(v ssa.Value, b *ssa.BasicBlock) bool {
 		}
 	case *ssa.ChangeType:
 		return a.funcNonNil(x.X, b)
+	case *ssa.Phi:
+		// a function chosen by a switch: every edge a non-nil function
+		if funcPhiBusy[x] {
+			return false // a loop-carried function variable: not decided
+		}
+		funcPhiBusy[x] = true
+		defer delete(funcPhiBusy, x)
+		for i, e := range x.Edges {
+			if !a.funcNonNil(e, x.Block().Preds[i]) {
+				return false
+			}
+		}
+		return len(x.Edges) > 0
 	}
 	return false
 }
+
+var funcPhiBusy = map[*ssa.Phi]bool{}
 
 // lookupOkGuard: b dominated by the true edge of the ok result of lk.
 func (a *nilAn) lookupOkGuard(lk *ssa.Lookup, b *ssa.BasicBlock) bool {
